@@ -96,6 +96,8 @@ static const scen_t scenarios[] = {
    "group commit over DISJOINT keys: a leader with two queued followers (one a 2-key batch), a later small write by the first writer, and a snapshot reader of the batch's keys: every merged batch stays visible as a whole and in order"},
   {"D18", "B1", 4, "P0.1 P1.1 F", "", {"B[P0.1,D1] P1.1", "h01 h01", "C"}, 0,
    "a snapshot taken while a batch (overwrite + delete) is in flight is HELD and re-read (lookups + iterator) after the write and a full compaction completed: its view never moves"},
+  {"D19", "B1", 4, "P0.1 P1.1 F", "", {"h01", "P0.1 H P0.1 C"}, 0,
+   "two live snapshots of different age: an older one held by a reader, a newer one taken between two overwrites by the thread that then runs a full (merging) compaction: the older snapshot still sees its version"},
   {"D18f", "B1,reuse=1", 4, "P0.2 P1.2 P0.2", "", {"B[P0.1,D1] P1.2", "h01 h01"}, 0,
    "as D18 with a nearly full memtable: the in-flight write switches memtables and a background flush runs while the snapshot is held"},
   {"D2b", "B1", 4, "", "", {"B[P0.1,P1.1]", "B[D0,D1]", "t t"}, 0,
@@ -141,6 +143,7 @@ static oprec_t recs[MAXTHR][MAXTOPS];
 static int nrecs[MAXTHR];
 static int final_vids[KV_MAXKEYS];
 static char held_err[400];
+static const ldb_snapshot_t *kept_snap[8];
 static int final_ok;
 static char exec_err[500];
 static ldb_t *gdb;
@@ -169,7 +172,7 @@ parse_prog(int t, const char *s) {
     else if (*s == 'n') { o->kind = 'n'; o->k1 = s[1] - '0'; o->k2 = s[2] - '0'; s += 3; }
     else if (*s == 'h') { o->kind = 'h'; o->k1 = s[1] - '0'; o->k2 = s[2] - '0'; s += 3; }
     else if (*s == 'R') { o->kind = 'R'; o->k1 = s[1] - '0'; s += 2; }
-    else if (strchr("tCFyxK", *s)) { o->kind = *s; s++; }
+    else if (strchr("tCFyxKH", *s)) { o->kind = *s; s++; }
     else vh_die("bad op '%c' in scenario", *s);
     nprog[t]++;
   }
@@ -360,6 +363,12 @@ thread_body(void *arg) {
         r->ret = sch_event();
         break;
       }
+      case 'H':
+        /* take a snapshot and keep it until this thread's program ends (a second, newer live snapshot) */
+        r->inv = sch_event();
+        if (!kept_snap[t]) kept_snap[t] = ldb_snapshot(gdb);
+        r->ret = sch_event();
+        break;
       case 'K': {
         /* backup taken concurrently: read back by thread 0 after the join; it must equal the
          * database at ONE point inside this call (every batch wholly in or out) */
@@ -373,6 +382,7 @@ thread_body(void *arg) {
     }
     nrecs[t] = j + 1;
   }
+  if (kept_snap[t]) { ldb_release(gdb, kept_snap[t]); kept_snap[t] = NULL; }
 }
 
 static void
@@ -384,6 +394,7 @@ exec_body(void *arg) {
   (void)arg;
   exec_err[0] = 0;
   held_err[0] = 0;
+  memset(kept_snap, 0, sizeof(kept_snap));
   final_ok = 0;
   sch_quiet(1);
   kh_init(&h, &cfg, DB);
